@@ -2,12 +2,14 @@
 EXTENDS Watch, Json, SequencesExt
 \* history variable for replay: the sequence of steps that led here (hidden from the state space by VIEW)
 VARIABLE hist
-mvars == <<disk, cache, watched, out, built, steps, hist>>
+mvars == <<disk, cache, bound, watched, out, built, steps, hist>>
 MInit == Init /\ hist = <<>>
 MNext == \/ Rebuild /\ hist' = Append(hist, [op |-> "rebuild", f |-> "", c |-> ""])
          \/ \E f \in Files : \E c \in Variants(f) : Edit(f, c) /\ hist' = Append(hist, [op |-> "edit", f |-> f, c |-> c])
+         \/ \E f \in Files : \E c \in Variants(f) : Create(f, c) /\ hist' = Append(hist, [op |-> "create", f |-> f, c |-> c])
+         \/ \E f \in Files : Delete(f) /\ hist' = Append(hist, [op |-> "delete", f |-> f, c |-> "missing"])
 MSpec == MInit /\ [][MNext]_mvars
-View == <<disk, cache, watched, out, built>>
+View == <<disk, cache, bound, watched, out, built>>
 \* one HIST line per reached state (a shortest history to it, thanks to breadth-first search + VIEW)
 EmitInv == PrintT(<<"HIST", ToJson([hist |-> hist, cache |-> cache, watched |-> SetToSeq(watched), built |-> built])>>)
 =============================================================================
